@@ -25,6 +25,8 @@ type Mutant struct {
 	Why     string `json:"why"`
 	Source  string `json:"source,omitempty"` // calibration | design | seeded/<id>
 	// More: further edits of the same file, applied after Find/Replace
+	// All: replace every occurrence of Find (renames); default: exactly one
+	All  bool `json:"all,omitempty"`
 	More []struct {
 		Find    string `json:"find"`
 		Replace string `json:"replace"`
@@ -86,12 +88,12 @@ func Thorough(c *core.Ctx, repo, verif string) {
 				results[i] = res
 				return
 			}
-			if strings.Count(string(src), m.Find) != 1 {
+			if n := strings.Count(string(src), m.Find); n != 1 && !(m.All && n > 1) {
 				res.Status = "stale"
 				results[i] = res
 				return
 			}
-			mod := strings.Replace(string(src), m.Find, m.Replace, 1)
+			mod := strings.Replace(string(src), m.Find, m.Replace, -1)
 			stale := false
 			for _, e := range m.More {
 				if strings.Count(mod, e.Find) != 1 {
@@ -120,6 +122,19 @@ func Thorough(c *core.Ctx, repo, verif string) {
 				return
 			}
 			res.Status = "missed"
+			if m.Expect == "" {
+				// neutral variant: a behaviour-preserving edit; nothing new may be reported
+				res.Status = "quiet"
+				for _, l := range strings.Split(string(out), "\n") {
+					f := strings.Split(l, "\t")
+					if len(f) >= 4 && f[0] == "MUTANT-OB" && !baseline[f[2]+" "+f[3]] {
+						res.Status = "false-alarm"
+						res.Reported = append(res.Reported, f[1]+" "+f[2]+" "+f[3])
+					}
+				}
+				results[i] = res
+				return
+			}
 			for _, l := range strings.Split(string(out), "\n") {
 				f := strings.Split(l, "\t")
 				if len(f) >= 4 && f[0] == "MUTANT-OB" {
@@ -143,6 +158,11 @@ func Thorough(c *core.Ctx, repo, verif string) {
 		case "detected":
 			det++
 			c.OK("selftest", "mutant:"+r.Mutant, "", "variant reported by "+r.Expect)
+		case "quiet":
+			det++
+			c.OK("selftest", "neutral:"+r.Mutant, "", "behaviour-preserving variant: nothing reported")
+		case "false-alarm":
+			c.Stuck("selftest", "neutral:"+r.Mutant, "", "FALSE ALARM of the checker: a behaviour-preserving variant is reported: "+strings.Join(r.Reported, "; "))
 		case "stale":
 			stale++
 			c.Note("mutant %s is stale (its anchor text no longer occurs exactly once); not a verdict on the repository", r.Mutant)
